@@ -1399,6 +1399,15 @@ def try_discharge(fx, f, s, key, tainted_params, table, used):
             if wk in table and table[wk][0] not in ('', '-'):
                 key = wk
                 break
+    if res is None and key not in table:
+        # an argument that is a predicate over the whole program does not depend on which function the site stands in: moving the
+        # site into a helper keeps the entry (only for the predicates named here)
+        tail = ':%s:%s' % (s['kind'], key.split(':' + s['kind'] + ':', 1)[-1]) if (':' + s['kind'] + ':') in key else None
+        if tail:
+            for k2, (n2, _r2) in table.items():
+                if n2 in FN_INDEPENDENT and k2.endswith(tail):
+                    key = k2
+                    break
     if res is None and key in table:
         needs, reason = table[key]
         used.add(key)
@@ -1626,6 +1635,25 @@ def _line_bounds_are_boundaries(fx):
     return ok
 
 
+def _reach_skipping(f, src, dst, edge, dead):
+    """is dst reachable from src without the edge and without entering a block of `dead`?"""
+    from collections import deque
+    if src == dst:
+        return True
+    seen, dq = {src}, deque([src])
+    while dq:
+        b = dq.popleft()
+        for n in f.succ(b):
+            if (b, n) == edge or n in dead:
+                continue
+            if n == dst:
+                return True
+            if n not in seen:
+                seen.add(n)
+                dq.append(n)
+    return False
+
+
 def _function_entries_stay_functions(fx):
     """`;` looks up the dictionary entry its `:` made (index kept in the pending flow) and panics if it is not a Function any
     more.  Entries are appended, cut off at the end, removed as a whole - and overwritten in place in a few words.  None of
@@ -1643,7 +1671,9 @@ def _function_entries_stay_functions(fx):
         f0 = fx.fns[fn]
         if not any(w['field'][0] == 'dict' and w.get('elem') and w['how'].startswith('assign') for w in _aw.field_writes(fx, f0, tracked)):
             continue
-        f = inline.thread_fn(f0)
+        if _VIEW[0] is None or _VIEW[0].fx is not fx:
+            _VIEW[0] = inline.View(fx)
+        f = inline.thread_fn(_VIEW[0](fn))      # the test may sit in a private helper that returns the index it vetted
         for w in _aw.field_writes(fx, f, tracked):
             if not (w['field'][0] == 'dict' and w.get('elem') and w['how'].startswith('assign')) or w.get('stmt') is None:
                 continue
@@ -1663,6 +1693,14 @@ def _function_entries_stay_functions(fx):
             kind = list(kinds)[0]
             vi = vnames.index(kind)
             found = False
+            # the search is not value-sensitive: a path that builds an error or a None (`None => return Ok(None)` in a helper
+            # that hands the vetted index back as Some) does not arrive at a write that needs the index
+            from ..pathq import error_blocks as _eb
+            dead = set(_eb(f))
+            for b3 in f.reachable_blocks():
+                for st3 in f.blocks[b3]['stmts']:
+                    if st3['k'] == 'assign' and st3['rv']['k'] == 'agg' and st3['rv'].get('adt') == 'core::option::Option' and st3['rv'].get('variant') == 'None':
+                        dead.add(b3)
             for b2 in f.reachable_blocks():
                 t = f.blocks[b2]['term']
                 if t['k'] != 'switch':
@@ -1674,7 +1712,7 @@ def _function_entries_stay_functions(fx):
                 tgt = listed.get(vi)
                 if tgt is None:
                     continue
-                if not _reach_without_edge(f, 0, w['bb'], b2, tgt):
+                if not _reach_skipping(f, 0, w['bb'], (b2, tgt), dead):
                     found = True
             if not found:
                 return False
@@ -1682,6 +1720,7 @@ def _function_entries_stay_functions(fx):
 
 
 
+FN_INDEPENDENT = ('@function-entries-stay-functions',)
 PREDICATES = {'@next_nonws-filters': _next_nonws_filters, '@line-bounds-are-boundaries': _line_bounds_are_boundaries, '@to_uint-callers-bound-len': _to_uint_callers_bound_len,
               '@hex-prefix-is-ascii': _hex_prefix_is_ascii, '@function-entries-stay-functions': _function_entries_stay_functions}
 
